@@ -322,14 +322,20 @@ func ValidatePaymentRevision(current, revision types.FileContractRevision, payme
 	}
 	// validate that all outputs are consistent with only transferring the
 	// payment from the renter payouts to the host payouts.
+	validRenter, u1 := current.ValidRenterPayout().SubWithUnderflow(payment)
+	missedRenter, u2 := current.MissedRenterPayout().SubWithUnderflow(payment)
+	validHost, o1 := current.ValidHostPayout().AddWithOverflow(payment)
+	missedHost, o2 := current.MissedHostPayout().AddWithOverflow(payment)
 	switch {
-	case revision.ValidRenterPayout().Cmp(current.ValidRenterPayout().Sub(payment)) != 0:
+	case u1 || u2 || o1 || o2:
+		return errors.New("payment amount out of range")
+	case revision.ValidRenterPayout().Cmp(validRenter) != 0:
 		return errors.New("renter valid proof output is not reduced by the payment amount")
-	case revision.MissedRenterPayout().Cmp(current.MissedRenterPayout().Sub(payment)) != 0:
+	case revision.MissedRenterPayout().Cmp(missedRenter) != 0:
 		return errors.New("renter missed proof output is not reduced by the payment amount")
-	case revision.ValidHostPayout().Cmp(current.ValidHostPayout().Add(payment)) != 0:
+	case revision.ValidHostPayout().Cmp(validHost) != 0:
 		return errors.New("host valid proof output is not increased by the payment amount")
-	case revision.MissedHostPayout().Cmp(current.MissedHostPayout().Add(payment)) != 0:
+	case revision.MissedHostPayout().Cmp(missedHost) != 0:
 		return errors.New("host missed proof output is not increased by the payment amount")
 	}
 	return nil
